@@ -117,7 +117,6 @@ func RunTasks(fns []func(), budget []int64, choose Chooser) RunResult {
 	wgCount = map[*sync.WaitGroup]int{}
 	schedActive, Acc, accActive = true, true, true
 	last, lastSite := 0, uint32(0)
-	idle := 0 // consecutive segments that ended blocked with zero progress
 	for {
 		// A task that blocked without making a step cannot get further until some other
 		// task has made progress: it is not offered to the chooser until then (a policy that
@@ -137,10 +136,6 @@ func RunTasks(fns []func(), budget []int64, choose Chooser) RunResult {
 			if live > 0 {
 				res.Deadlock = true // every live task waits for a primitive only another waiting task can release
 			}
-			break
-		}
-		if idle > 2*len(runnable) {
-			res.Deadlock = true
 			break
 		}
 		id, q := choose(runnable, last, lastSite)
@@ -173,10 +168,8 @@ func RunTasks(fns []func(), budget []int64, choose Chooser) RunResult {
 			seg.Why = "blocked"
 		}
 		if t.blocked && seg.Steps == 0 {
-			idle++
 			t.stalled = true
 		} else {
-			idle = 0
 			for _, o := range allTasks {
 				o.stalled = false
 			}
